@@ -365,4 +365,722 @@ theorem sum_map_mul_right (L : List Rat) (f : Rat) : (L.map (· * f)).sum = L.su
   | nil => simp [Rat.zero_mul]
   | cons a L ih => simp only [List.map_cons, List.sum_cons, ih]; grind
 
+/-! ### more list lemmas -/
+
+theorem nodup_eraseDups (L : List Nat) : L.eraseDups.Nodup := by
+  generalize hn : L.length = n
+  induction n using Nat.strongRecOn generalizing L with
+  | _ n ih =>
+    cases L with
+    | nil => simp
+    | cons a as =>
+      rw [List.eraseDups_cons, List.nodup_cons]
+      constructor
+      · intro h
+        rw [List.mem_eraseDups] at h
+        simp at h
+      · refine ih (as.filter fun b => !b == a).length ?_ _ rfl
+        have := List.length_filter_le (fun b => !b == a) as
+        simp at hn; omega
+
+theorem sum_map_add' {α} (L : List α) (f g : α → Rat) :
+    (L.map fun a => f a + g a).sum = (L.map f).sum + (L.map g).sum := by
+  induction L with
+  | nil => simp [Rat.zero_add]
+  | cons a L ih => simp only [List.map_cons, List.sum_cons, ih]; grind
+
+theorem sum_map_eq_zero {α} (L : List α) (f : α → Rat) (h : ∀ a ∈ L, f a = 0) : (L.map f).sum = 0 := by
+  induction L with
+  | nil => simp
+  | cons a L ih =>
+    rw [List.map_cons, List.sum_cons, h a List.mem_cons_self, ih (fun b hb => h b (List.mem_cons_of_mem _ hb))]
+    grind
+
+theorem sum_range_single (n a : Nat) (ha : a < n) (f : Nat → Rat) :
+    ((List.range n).map fun j => if j = a then f j else 0).sum = f a := by
+  induction n with
+  | zero => omega
+  | succ n ih =>
+    rw [List.range_succ, List.map_append, List.sum_append]
+    by_cases h : a = n
+    · subst h
+      rw [sum_map_eq_zero _ _ (fun j hj => by
+        have : j < a := List.mem_range.mp hj
+        simp; omega)]
+      simp [Rat.zero_add, Rat.add_zero]
+    · rw [ih (by omega)]
+      have : ¬ n = a := fun h' => h h'.symm
+      simp [this, Rat.add_zero]
+
+theorem sum_range_ite_mem (n : Nat) (L : List Nat) (hL : L.Nodup) (hlt : ∀ j ∈ L, j < n) (f : Nat → Rat) :
+    ((List.range n).map fun j => if j ∈ L then f j else 0).sum = (L.map f).sum := by
+  induction L with
+  | nil => simp; exact sum_map_eq_zero _ _ (fun _ _ => rfl)
+  | cons a L ih =>
+    rw [List.nodup_cons] at hL
+    have hpt : ((List.range n).map fun j => if j ∈ a :: L then f j else 0)
+        = (List.range n).map fun j => (if j = a then f j else 0) + (if j ∈ L then f j else 0) := by
+      apply List.map_congr_left
+      intro j _
+      by_cases h1 : j = a
+      · subst h1; simp [hL.1, Rat.add_zero]
+      · by_cases h2 : j ∈ L <;> simp [h1, h2, Rat.zero_add, Rat.add_zero]
+    rw [hpt, sum_map_add', sum_range_single n a (hlt a List.mem_cons_self),
+      ih hL.2 (fun j hj => hlt j (List.mem_cons_of_mem _ hj)), List.map_cons, List.sum_cons]
+
+theorem idxOf?_eq (L : List Nat) (j : Nat) :
+    L.idxOf? j = if j ∈ L then some (L.idxOf j) else none := by
+  induction L with
+  | nil => simp
+  | cons a L ih =>
+    rw [List.idxOf?_cons, List.idxOf_cons, ih]
+    by_cases h : a = j
+    · subst h; simp
+    · have h' : ¬ j = a := fun e => h e.symm
+      have hb : (a == j) = false := by simpa using h
+      by_cases hm : j ∈ L <;> simp [h, h', hm, hb]
+
+
+/-! ### one merge step on the cost vector and on a row -/
+
+theorem costAt_set (c : List Rat) (j : Nat) (s : Rat) (hj : j < c.length) (y : Vec) :
+    costAt (c.set j s) 0 y = costAt c 0 y + (s - c.getD j 0) * y j := by
+  have : c.set j s = addAt c j (s - c.getD j 0) := by
+    unfold addAt; congr 1; grind
+  rw [this, costAt_addAt c j _ hj 0 y, Nat.zero_add]
+
+/-- moving the values of the `outs` positions (where `x` vanishes) to `x ℓ` -/
+theorem costAt_redirect (c : List Rat) (outs : List Nat) (hnd : outs.Nodup) (hlt : ∀ o ∈ outs, o < c.length)
+    (x : Vec) (ℓ : Nat) (hx : ∀ o ∈ outs, x o = 0) :
+    costAt c 0 (fun j => if j ∈ outs then x ℓ else x j)
+      = costAt c 0 x + (outs.map fun o => c.getD o 0).sum * x ℓ := by
+  rw [costAt_eq_sum_range, costAt_eq_sum_range]
+  have hpt : ((List.range c.length).map fun j => c.getD j 0 * (fun j => if j ∈ outs then x ℓ else x j) (0 + j))
+      = (List.range c.length).map fun j => c.getD j 0 * x (0 + j) + (if j ∈ outs then c.getD j 0 * x ℓ else 0) := by
+    apply List.map_congr_left
+    intro j _
+    simp only [Nat.zero_add]
+    by_cases h : j ∈ outs
+    · simp only [h, if_true, hx j h]; grind
+    · simp only [h, if_false]; grind
+  rw [hpt, sum_map_add', sum_range_ite_mem c.length outs hnd hlt (fun j => c.getD j 0 * x ℓ)]
+  have : (outs.map fun j => c.getD j 0 * x ℓ) = (outs.map fun o => c.getD o 0).map (· * x ℓ) := by
+    rw [List.map_map]; rfl
+  rw [this, sum_map_mul_right]
+
+theorem eval_addColumns (ℓ : Nat) (outs : List Nat) (r : Row) (x : Vec) (hx : ∀ o ∈ outs, x o = 0) :
+    (addColumns ℓ outs r).eval x = r.eval (fun j => if j ∈ outs then x ℓ else x j) := by
+  unfold addColumns Row.eval
+  simp only [List.map_append, List.sum_append, List.map_map]
+  induction r.coeffs with
+  | nil => simp [Rat.add_zero]
+  | cons p cs ih =>
+    by_cases h : p.1 ∈ outs
+    · have hc : outs.contains p.1 = true := by simpa using h
+      simp only [List.filter_cons, hc, if_true, List.map_cons, List.sum_cons, Function.comp_def, h] at ih ⊢
+      rw [← ih, hx p.1 h]; grind
+    · have hc : outs.contains p.1 = false := by simpa using h
+      simp only [List.filter_cons, hc, List.map_cons, List.sum_cons, Function.comp_def, h, if_false] at ih ⊢
+      rw [← ih]; grind
+
+
+/-! ### the loop of `makePeriodic` when the groups form a partition of the variables -/
+
+theorem groupVars_eq (M : List MapRow) (labels : List (Nat × Nat × Nat)) (out : List Nat) (k : GroupKey) :
+    groupVars M labels out k = (grp M labels k).filter fun v => !out.contains v := rfl
+
+/-- two groups that share a variable have the same variables (one group per variable; transports, whose
+    variable sits in the same position at both nodes; coarse assets whose period and duration are multiples
+    of the coarse step) -/
+def Partition (M : List MapRow) (labels : List (Nat × Nat × Nat)) : Prop :=
+  ∀ k1 k2 v w, v ∈ grp M labels k1 → v ∈ grp M labels k2 → w ∈ grp M labels k1 → w ∈ grp M labels k2
+
+def leadFn (st : MergeState) (j : Nat) : Nat := st.leadOf.getD j j
+
+def Touched (st : MergeState) (v : Nat) : Prop := leadFn st v ≠ v ∨ ∃ f, f ≠ v ∧ leadFn st f = v
+
+/-- a point restricted to the remaining variables -/
+def maskOf (n : Nat) (lead : Nat → Nat) (y : Vec) : Vec := fun j => if j < n ∧ lead j = j then y j else 0
+
+structure LoopInv (P : AssetProblem) (labels : List (Nat × Nat × Nat)) (st : MergeState) : Prop where
+  len_lead : st.leadOf.length = P.l.length
+  len_l : st.l.length = P.l.length
+  len_c : st.c.length = P.l.length
+  out_iff : ∀ j, j ∈ st.out ↔ leadFn st j ≠ j
+  idem : ∀ j, leadFn st (leadFn st j) = leadFn st j
+  closed : ∀ j, j < P.l.length → leadFn st j < P.l.length
+  touched : ∀ v, Touched st v → ∃ k, v ∈ grp P.mapping labels k ∧
+    ∀ w ∈ grp P.mapping labels k, w ∈ st.out ∨ w = leadFn st v
+  newIdx : st.newIdx = P.mapping.map fun m => leadFn st m.var
+  cost : ∀ y, costAt st.c 0 (maskOf P.l.length (leadFn st) y) = costAt P.c 0 (fun j => y (leadFn st j))
+  rows : ∀ (i : Nat) (r0 r : Row), P.rows[i]? = some r0 → st.rows[i]? = some r →
+    (∀ y, r.eval (maskOf P.l.length (leadFn st) y) = r0.eval (fun j => y (leadFn st j))) ∧
+      r.rhs = r0.rhs ∧ r.kind = r0.kind
+  rows_len : st.rows.length = P.rows.length
+  cols : ∀ r ∈ st.rows, ∀ p ∈ r.coeffs, p.1 < P.l.length
+
+theorem eval_congr (r : Row) (x y : Vec) (h : ∀ p ∈ r.coeffs, x p.1 = y p.1) : r.eval x = r.eval y := by
+  unfold Row.eval
+  congr 1
+  apply List.map_congr_left
+  intro p hp; rw [h p hp]
+
+theorem mergeStep_cases (M : List MapRow) (labels : List (Nat × Nat × Nat)) (st : MergeState) (k : GroupKey) :
+    mergeStep M labels st k = st ∨ (mergeStep M labels st k).err = some .index ∨
+    ∃ ℓ o os, st.err = none ∧ groupVars M labels st.out k = ℓ :: o :: os ∧ (∀ v ∈ ℓ :: o :: os, v < st.l.length) ∧
+      (mergeStep M labels st k).l.length = st.l.length ∧
+      (mergeStep M labels st k).c = st.c.set ℓ ((ℓ :: o :: os).map fun v => st.c.getD v 0).sum ∧
+      (mergeStep M labels st k).rows = st.rows.map (addColumns ℓ (o :: os)) ∧
+      (mergeStep M labels st k).out = st.out ++ (o :: os) ∧
+      (mergeStep M labels st k).newIdx
+        = (M.zip st.newIdx).map (fun q => if (o :: os).contains q.1.var then ℓ else q.2) ∧
+      (mergeStep M labels st k).leadOf
+        = (List.range st.leadOf.length).map fun j => if (o :: os).contains j then ℓ else st.leadOf.getD j j := by
+  unfold mergeStep
+  by_cases he : st.err.isSome = true
+  · left; simp only [he, if_true]
+  · simp only [he, Bool.false_eq_true, if_false]
+    rcases hg : groupVars M labels st.out k with _ | ⟨ℓ, _ | ⟨o, os⟩⟩
+    · left; rfl
+    · left; rfl
+    · simp only
+      split
+      · right; left; rfl
+      · rename_i hany
+        right; right
+        refine ⟨ℓ, o, os, ?_, rfl, ?_, ?_, rfl, rfl, rfl, rfl, rfl⟩
+        · cases hh : st.err <;> simp_all
+        · intro v hv
+          have := hany
+          simp only [List.any_eq_true, decide_eq_true_eq, not_exists, not_and, Nat.not_le] at this
+          exact this v hv
+        · simp
+
+theorem zip_map_self {α β γ} (M : List α) (g : α → β) (h : α × β → γ) :
+    (M.zip (M.map g)).map h = M.map fun m => h (m, g m) := by
+  induction M with
+  | nil => rfl
+  | cons a M ih => simp [ih]
+
+
+theorem leadFn_step (st st' : MergeState) (ℓ : Nat) (outs : List Nat) (n : Nat)
+    (hlen : st.leadOf.length = n) (hout : ∀ o ∈ outs, o < n)
+    (h : st'.leadOf = (List.range st.leadOf.length).map fun j => if outs.contains j then ℓ else st.leadOf.getD j j)
+    (j : Nat) : leadFn st' j = if j ∈ outs then ℓ else leadFn st j := by
+  unfold leadFn
+  rw [h, getD_map_range, hlen]
+  by_cases hj : j < n
+  · simp [hj]
+  · have hno : j ∉ outs := fun hm => hj (hout j hm)
+    rw [if_neg hj, if_neg hno, List.getD_eq_getElem?_getD, List.getElem?_eq_none (by omega)]
+    rfl
+
+theorem loopInv_step (P : AssetProblem) (labels : List (Nat × Nat × Nat)) (hpart : Partition P.mapping labels)
+    (st st' : MergeState) (k : GroupKey) (ℓ o : Nat) (os : List Nat)
+    (hinv : LoopInv P labels st)
+    (hg : groupVars P.mapping labels st.out k = ℓ :: o :: os)
+    (hlt : ∀ v ∈ ℓ :: o :: os, v < st.l.length)
+    (hl : st'.l.length = st.l.length)
+    (hc : st'.c = st.c.set ℓ ((ℓ :: o :: os).map fun v => st.c.getD v 0).sum)
+    (hr : st'.rows = st.rows.map (addColumns ℓ (o :: os)))
+    (ho : st'.out = st.out ++ (o :: os))
+    (hn : st'.newIdx = (P.mapping.zip st.newIdx).map (fun q => if (o :: os).contains q.1.var then ℓ else q.2))
+    (hlead : st'.leadOf
+      = (List.range st.leadOf.length).map fun j => if (o :: os).contains j then ℓ else st.leadOf.getD j j) :
+    LoopInv P labels st' := by
+  have n_def : st.l.length = P.l.length := hinv.len_l
+  have hvars_nodup : (ℓ :: o :: os).Nodup := by
+    rw [← hg, groupVars_eq]
+    exact List.Nodup.sublist List.filter_sublist (nodup_eraseDups _)
+  have hℓ_notin : ℓ ∉ o :: os := (List.nodup_cons.mp hvars_nodup).1
+  have houts_nodup : (o :: os).Nodup := (List.nodup_cons.mp hvars_nodup).2
+  have hmemvars : ∀ v, v ∈ ℓ :: o :: os → v ∈ grp P.mapping labels k ∧ v ∉ st.out := by
+    intro v hv
+    rw [← hg, groupVars_eq, List.mem_filter] at hv
+    exact ⟨hv.1, by simpa using hv.2⟩
+  have hvars_of : ∀ w, w ∈ grp P.mapping labels k → w ∉ st.out → w ∈ ℓ :: o :: os := by
+    intro w hw hno
+    rw [← hg, groupVars_eq, List.mem_filter]
+    exact ⟨hw, by simpa using hno⟩
+  have hlt' : ∀ v ∈ ℓ :: o :: os, v < P.l.length := fun v hv => n_def ▸ hlt v hv
+  have hfresh : ∀ v ∈ ℓ :: o :: os, ¬ Touched st v := by
+    intro v hv ht
+    obtain ⟨k', hvk', hall⟩ := hinv.touched v ht
+    have hvk := (hmemvars v hv).1
+    have key : ∀ w ∈ ℓ :: o :: os, w = leadFn st v := by
+      intro w hw
+      have hwk' := hpart k k' v w hvk hvk' (hmemvars w hw).1
+      rcases hall w hwk' with h | h
+      · exact absurd h (hmemvars w hw).2
+      · exact h
+    have h1 := key ℓ List.mem_cons_self
+    have h2 := key o (List.mem_cons_of_mem _ List.mem_cons_self)
+    exact hℓ_notin (by rw [h1, ← h2]; exact List.mem_cons_self)
+  have hself : ∀ v ∈ ℓ :: o :: os, leadFn st v = v := by
+    intro v hv
+    by_cases h : leadFn st v = v
+    · exact h
+    · exact absurd (Or.inl h) (hfresh v hv)
+  have hnofoll : ∀ v ∈ ℓ :: o :: os, ∀ f, leadFn st f = v → f = v := by
+    intro v hv f hf
+    by_cases h : f = v
+    · exact h
+    · exact absurd (Or.inr ⟨f, h, hf⟩) (hfresh v hv)
+  have hL : ∀ j, leadFn st' j = if j ∈ o :: os then ℓ else leadFn st j :=
+    leadFn_step st st' ℓ (o :: os) P.l.length hinv.len_lead
+      (fun v hv => hlt' v (List.mem_cons_of_mem _ hv)) hlead
+  have hLℓ : leadFn st' ℓ = ℓ := by rw [hL, if_neg hℓ_notin]; exact hself ℓ List.mem_cons_self
+  have hnotout : ∀ j, j ∉ o :: os → leadFn st j ∉ o :: os := by
+    intro j hj hm
+    have e := hnofoll _ (List.mem_cons_of_mem _ hm) j rfl
+    rw [← e] at hm
+    exact hj hm
+  have hmask : ∀ y : Vec,
+      (fun j => if j ∈ o :: os then maskOf P.l.length (leadFn st') y ℓ else maskOf P.l.length (leadFn st') y j)
+        = maskOf P.l.length (leadFn st) (fun j => if j ∈ o :: os then y ℓ else y j) := by
+    intro y; funext j
+    have hmℓ : maskOf P.l.length (leadFn st') y ℓ = y ℓ := by
+      unfold maskOf; rw [if_pos ⟨hlt' ℓ List.mem_cons_self, hLℓ⟩]
+    by_cases hj : j ∈ o :: os
+    · have hjv : j ∈ ℓ :: o :: os := List.mem_cons_of_mem _ hj
+      rw [if_pos hj, hmℓ]
+      unfold maskOf
+      rw [if_pos ⟨hlt' j hjv, hself j hjv⟩]
+      simp only [if_pos hj]
+    · rw [if_neg hj]
+      unfold maskOf
+      rw [hL j, if_neg hj]
+      simp only [if_neg hj]
+  have hcomp : ∀ y : Vec, (fun j => (fun j => if j ∈ o :: os then y ℓ else y j) (leadFn st j))
+      = fun j => y (leadFn st' j) := by
+    intro y; funext j
+    rw [hL j]
+    by_cases hj : j ∈ o :: os
+    · rw [if_pos hj]
+      show (if leadFn st j ∈ o :: os then y ℓ else y (leadFn st j)) = y ℓ
+      rw [hself j (List.mem_cons_of_mem _ hj), if_pos hj]
+    · rw [if_neg hj]
+      show (if leadFn st j ∈ o :: os then y ℓ else y (leadFn st j)) = y (leadFn st j)
+      rw [if_neg (hnotout j hj)]
+  have hzero : ∀ y : Vec, ∀ q ∈ o :: os, maskOf P.l.length (leadFn st') y q = 0 := by
+    intro y q hq
+    unfold maskOf
+    rw [if_neg]
+    intro ⟨_, h⟩
+    rw [hL q, if_pos hq] at h
+    exact hℓ_notin (h ▸ hq)
+  refine { len_lead := ?_, len_l := ?_, len_c := ?_, out_iff := ?_, idem := ?_, closed := ?_, touched := ?_,
+           newIdx := ?_, cost := ?_, rows := ?_, rows_len := ?_, cols := ?_ }
+  · rw [hlead]; simp [hinv.len_lead]
+  · rw [hl]; exact hinv.len_l
+  · rw [hc]; simp [hinv.len_c]
+  · intro j
+    rw [ho, List.mem_append, hL j]
+    by_cases hj : j ∈ o :: os
+    · rw [if_pos hj]
+      constructor
+      · intro _ h; exact hℓ_notin (h ▸ hj)
+      · intro _; exact Or.inr hj
+    · rw [if_neg hj]
+      constructor
+      · rintro (h | h)
+        · exact (hinv.out_iff j).mp h
+        · exact absurd h hj
+      · intro h; exact Or.inl ((hinv.out_iff j).mpr h)
+  · intro j
+    rw [hL j]
+    by_cases hj : j ∈ o :: os
+    · rw [if_pos hj]; exact hLℓ
+    · rw [if_neg hj, hL (leadFn st j), if_neg (hnotout j hj)]; exact hinv.idem j
+  · intro j hj
+    rw [hL j]; split
+    · exact hlt' ℓ List.mem_cons_self
+    · exact hinv.closed j hj
+  · intro v ht
+    by_cases hv : v ∈ ℓ :: o :: os
+    · refine ⟨k, (hmemvars v hv).1, fun w hw => ?_⟩
+      by_cases hwo : w ∈ st.out
+      · left; rw [ho]; exact List.mem_append_left _ hwo
+      · have hwv := hvars_of w hw hwo
+        rcases List.mem_cons.mp hwv with hwℓ | hwouts
+        · right
+          rw [hL v, hwℓ]
+          rcases List.mem_cons.mp hv with hvℓ | hvo
+          · rw [hvℓ, if_neg hℓ_notin]; exact (hself _ List.mem_cons_self).symm
+          · rw [if_pos hvo]
+        · left; rw [ho]; exact List.mem_append_right _ hwouts
+    · have hvo : v ∉ o :: os := fun h => hv (List.mem_cons_of_mem _ h)
+      have hLv : leadFn st' v = leadFn st v := by rw [hL v, if_neg hvo]
+      have ht0 : Touched st v := by
+        rcases ht with h | ⟨f, hfv, hf⟩
+        · left; rwa [hLv] at h
+        · right
+          refine ⟨f, hfv, ?_⟩
+          rw [hL f] at hf
+          by_cases hfo : f ∈ o :: os
+          · rw [if_pos hfo] at hf; exact absurd (hf ▸ List.mem_cons_self) hv
+          · rwa [if_neg hfo] at hf
+      obtain ⟨k', hvk', hall⟩ := hinv.touched v ht0
+      refine ⟨k', hvk', fun w hw => ?_⟩
+      rcases hall w hw with h | h
+      · left; rw [ho]; exact List.mem_append_left _ h
+      · right; rw [hLv]; exact h
+  · rw [hn, hinv.newIdx, zip_map_self]
+    apply List.map_congr_left
+    intro m _
+    rw [hL m.var]
+    by_cases h : m.var ∈ o :: os
+    · have hc' : (o :: os).contains m.var = true := by simpa using h
+      simp only [hc', if_true, if_pos h]
+    · have hc' : (o :: os).contains m.var = false := by simpa using h
+      simp only [hc', if_neg h]; simp
+  · intro y
+    have hred := costAt_redirect st.c (o :: os) houts_nodup
+      (fun q hq => by rw [hinv.len_c]; exact hlt' q (List.mem_cons_of_mem _ hq))
+      (maskOf P.l.length (leadFn st') y) ℓ (hzero y)
+    rw [hc, costAt_set _ _ _ (by rw [hinv.len_c]; exact hlt' ℓ List.mem_cons_self)]
+    calc costAt st.c 0 (maskOf P.l.length (leadFn st') y)
+            + (((ℓ :: o :: os).map fun v => st.c.getD v 0).sum - st.c.getD ℓ 0) * maskOf P.l.length (leadFn st') y ℓ
+          = costAt st.c 0 (maskOf P.l.length (leadFn st') y)
+            + ((o :: os).map fun v => st.c.getD v 0).sum * maskOf P.l.length (leadFn st') y ℓ := by
+            rw [List.map_cons, List.sum_cons]; grind
+      _ = costAt st.c 0 (fun j => if j ∈ o :: os then maskOf P.l.length (leadFn st') y ℓ
+            else maskOf P.l.length (leadFn st') y j) := hred.symm
+      _ = costAt st.c 0 (maskOf P.l.length (leadFn st) (fun j => if j ∈ o :: os then y ℓ else y j)) := by
+            rw [hmask y]
+      _ = costAt P.c 0 (fun j => (fun j => if j ∈ o :: os then y ℓ else y j) (leadFn st j)) :=
+            hinv.cost _
+      _ = costAt P.c 0 (fun j => y (leadFn st' j)) := by rw [hcomp y]
+  · intro i r0 r' h0 h'
+    rw [hr, List.getElem?_map] at h'
+    cases hri : st.rows[i]? with
+    | none => rw [hri] at h'; simp at h'
+    | some r =>
+      rw [hri] at h'
+      simp only [Option.map_some, Option.some.injEq] at h'
+      subst h'
+      obtain ⟨hev, hrhs, hkind⟩ := hinv.rows i r0 r h0 hri
+      refine ⟨fun y => ?_, hrhs, hkind⟩
+      calc (addColumns ℓ (o :: os) r).eval (maskOf P.l.length (leadFn st') y)
+          = r.eval (fun j => if j ∈ o :: os then maskOf P.l.length (leadFn st') y ℓ
+              else maskOf P.l.length (leadFn st') y j) := eval_addColumns _ _ _ _ (hzero y)
+        _ = r.eval (maskOf P.l.length (leadFn st) (fun j => if j ∈ o :: os then y ℓ else y j)) := by
+              rw [hmask y]
+        _ = r0.eval (fun j => (fun j => if j ∈ o :: os then y ℓ else y j) (leadFn st j)) := hev _
+        _ = r0.eval (fun j => y (leadFn st' j)) := by rw [hcomp y]
+  · rw [hr, List.length_map]; exact hinv.rows_len
+  · intro r' hr' p hp
+    rw [hr] at hr'
+    obtain ⟨r, hrm, rfl⟩ := List.mem_map.mp hr'
+    unfold addColumns at hp
+    simp only [List.mem_append, List.mem_map, List.mem_filter] at hp
+    rcases hp with h | ⟨q, _, rfl⟩
+    · exact hinv.cols r hrm p h
+    · exact hlt' ℓ List.mem_cons_self
+
+
+/-- the state the loop starts with -/
+def initState (P : AssetProblem) : MergeState :=
+  { l := P.l
+    u := P.u
+    c := P.c
+    rows := P.rows
+    out := []
+    newIdx := P.mapping.map (·.var)
+    leadOf := List.range P.l.length
+    err := none }
+
+theorem loopInv_init (P : AssetProblem) (labels : List (Nat × Nat × Nat))
+    (hlen : P.c.length = P.l.length) (hcols : ∀ r ∈ P.rows, ∀ p ∈ r.coeffs, p.1 < P.l.length) :
+    LoopInv P labels (initState P) := by
+  have hid : ∀ j, leadFn (initState P) j = j := by
+    intro j
+    show (List.range P.l.length).getD j j = j
+    rw [getD_range]; split <;> rfl
+  refine { len_lead := by simp [initState], len_l := rfl, len_c := hlen, out_iff := ?_, idem := ?_, closed := ?_, touched := ?_,
+           newIdx := ?_, cost := ?_, rows := ?_, rows_len := rfl, cols := hcols }
+  · intro j; rw [hid]; simp [initState]
+  · intro j; rw [hid, hid]
+  · intro j hj; rw [hid]; exact hj
+  · intro v ht
+    exfalso
+    rcases ht with h | ⟨f, hfv, hf⟩
+    · exact h (hid v)
+    · rw [hid] at hf; exact hfv hf
+  · show P.mapping.map (·.var) = _
+    apply List.map_congr_left
+    intro m _; rw [hid]
+  · intro y
+    apply costAt_congr
+    intro j hj
+    simp only [Nat.zero_add]
+    unfold maskOf
+    rw [hid, if_pos ⟨hlen ▸ hj, rfl⟩]
+  · intro i r0 r h0 h1
+    have : r = r0 := by
+      have h1' : P.rows[i]? = some r := h1
+      rw [h0] at h1'; exact (Option.some.inj h1').symm
+    subst this
+    refine ⟨fun y => ?_, rfl, rfl⟩
+    apply eval_congr
+    intro p hp
+    have hmem : r ∈ P.rows := List.mem_of_getElem? h0
+    unfold maskOf
+    rw [hid, if_pos ⟨hcols r hmem p hp, rfl⟩]
+
+theorem mergeAll_loopInv (P : AssetProblem) (labels : List (Nat × Nat × Nat))
+    (hlen : P.c.length = P.l.length) (hcols : ∀ r ∈ P.rows, ∀ p ∈ r.coeffs, p.1 < P.l.length)
+    (hpart : Partition P.mapping labels) (herr : (mergeAll P labels).err = none) :
+    LoopInv P labels (mergeAll P labels) := by
+  have key : (mergeAll P labels).err = none → LoopInv P labels (mergeAll P labels) := by
+    unfold mergeAll
+    apply foldl_inv (mergeStep P.mapping labels) (fun st => st.err = none → LoopInv P labels st)
+    · intro st k hst herr'
+      rcases mergeStep_cases P.mapping labels st k with h1 | h2 | ⟨ℓ, o, os, he, hg, hlt, hl, hc, hr, ho, hn, hlead⟩
+      · rw [h1] at herr' ⊢; exact hst herr'
+      · rw [h2] at herr'; cases herr'
+      · exact loopInv_step P labels hpart st _ k ℓ o os (hst he) hg hlt hl hc hr ho hn hlead
+    · intro _; exact loopInv_init P labels hlen hcols
+  exact key herr
+
+/-! ### the final compaction -/
+
+theorem keepVars_eq (st : MergeState) (n : Nat) (h : ∀ j, j ∈ st.out ↔ leadFn st j ≠ j) :
+    keepVars n st.out = keepOf (leadFn st) n := by
+  unfold keepVars keepOf
+  apply List.filter_congr
+  intro j _
+  unfold isLeader
+  by_cases hj : j ∈ st.out
+  · have := (h j).mp hj
+    have hb : (leadFn st j == j) = false := by simpa using this
+    simp [hj, hb]
+  · have : leadFn st j = j := by
+      by_cases e : leadFn st j = j
+      · exact e
+      · exact absurd ((h j).mpr e) hj
+    have hb : (leadFn st j == j) = true := by simpa using this
+    simp [hj, hb]
+
+theorem relabelRows_ok (keep : List Nat) (M : List MapRow) (g : MapRow → Nat) (M' : List MapRow)
+    (hmem : ∀ m ∈ M, g m ∈ keep) (h : relabelRows keep (M.zip (M.map g)) = .ok M') :
+    M' = M.map fun m => { m with var := keep.idxOf (g m) } := by
+  induction M generalizing M' with
+  | nil => simp [relabelRows] at h; rw [h]; rfl
+  | cons m M ih =>
+    simp only [List.map_cons, List.zip_cons_cons, relabelRows, newPos, idxOf?_eq,
+      if_pos (hmem m List.mem_cons_self)] at h
+    cases hrest : relabelRows keep (M.zip (M.map g)) with
+    | error e => rw [hrest] at h; cases h
+    | ok ms =>
+      rw [hrest] at h
+      injection h with h
+      rw [← h, ih ms (fun m' hm' => hmem m' (List.mem_cons_of_mem _ hm')) hrest, List.map_cons]
+
+theorem eval_compactRow (keep : List Nat) (r : Row) (z : Vec) :
+    (compactRow keep r).eval z = r.eval (fun j => if j ∈ keep then z (keep.idxOf j) else 0) := by
+  unfold compactRow Row.eval
+  simp only
+  induction r.coeffs with
+  | nil => simp
+  | cons p cs ih =>
+    by_cases h : p.1 ∈ keep
+    · simp only [List.filterMap_cons, newPos, idxOf?_eq, if_pos h, Option.map_some, List.map_cons, List.sum_cons] at ih ⊢
+      rw [ih]
+    · simp only [List.filterMap_cons, newPos, idxOf?_eq, if_neg h, Option.map_none, List.map_cons, List.sum_cons] at ih ⊢
+      rw [ih]; grind
+
+theorem mask_keep (lead : Nat → Nat) (n : Nat) (w : Vec) :
+    (fun j => if j ∈ keepOf lead n then w j else 0) = maskOf n lead w := by
+  funext j
+  unfold maskOf
+  by_cases h : j ∈ keepOf lead n
+  · rw [if_pos h, if_pos ((mem_keepOf lead n j).mp h)]
+  · rw [if_neg h, if_neg (fun h' => h ((mem_keepOf lead n j).mpr h'))]
+
+theorem costAt_compact_mask (lead : Nat → Nat) (n : Nat) (m : List Rat) (hm : m.length = n) (z : Vec) :
+    costAt (compact (keepOf lead n) m) 0 z
+      = costAt m 0 (maskOf n lead (fun j => z ((keepOf lead n).idxOf j))) := by
+  unfold compact
+  rw [costAt_map_idxOf _ (nodup_keepOf lead n), costAt_eq_sum_range, hm]
+  simp only [Nat.zero_add]
+  rw [sum_filter_of_zero (List.range n) (isLeader lead)
+    (fun j => m.getD j 0 * maskOf n lead (fun j => z ((keepOf lead n).idxOf j)) j) (fun j _ hq => by
+      unfold maskOf
+      rw [if_neg (fun h' => by simp [isLeader, h'.2] at hq)]; grind)]
+  show _ = ((keepOf lead n).map _).sum
+  apply congrArg
+  apply List.map_congr_left
+  intro j hj
+  unfold maskOf
+  rw [if_pos ((mem_keepOf lead n j).mp hj)]
+
+
+/-- what `makePeriodic` returns when it succeeds -/
+theorem makePeriodic_ok (P : AssetProblem) (labels : List (Nat × Nat × Nat)) (Q : AssetProblem)
+    (h : makePeriodic P labels = .ok Q) :
+    (mergeAll P labels).err = none ∧ (∀ m ∈ P.mapping, m.var < P.l.length) ∧
+    ∃ M', relabelRows (keepVars P.l.length (mergeAll P labels).out) (P.mapping.zip (mergeAll P labels).newIdx) = .ok M' ∧
+      Q = { P with
+            l := (keepVars P.l.length (mergeAll P labels).out).map fun j => (mergeAll P labels).l.getD j 0
+            u := (keepVars P.l.length (mergeAll P labels).out).map fun j => (mergeAll P labels).u.getD j 0
+            c := (keepVars P.l.length (mergeAll P labels).out).map fun j => (mergeAll P labels).c.getD j 0
+            rows := (mergeAll P labels).rows.map (compactRow (keepVars P.l.length (mergeAll P labels).out))
+            mapping := M' } := by
+  unfold makePeriodic at h
+  simp only at h
+  split at h
+  · cases h
+  · rename_i herr
+    split at h
+    · cases h
+    · rename_i hany
+      split at h
+      · cases h
+      · rename_i M' hrel
+        injection h with h
+        refine ⟨herr, ?_, M', hrel, h.symm⟩
+        intro m hm
+        have := hany
+        simp only [List.any_eq_true, decide_eq_true_eq, not_exists, not_and, Nat.not_le] at this
+        exact this m hm
+
+/-- **the literal loop is the generic merge** along its final leader map, when the groups form a partition:
+    the leader map is idempotent and closed; bounds, mapping, name and nodes coincide; costs and rows coincide
+    as linear functionals (rows also in right-hand side and type). -/
+theorem makePeriodic_is_merge_aux (P : AssetProblem) (labels : List (Nat × Nat × Nat)) (Q : AssetProblem)
+    (hlen : P.c.length = P.l.length) (hcols : ∀ r ∈ P.rows, ∀ p ∈ r.coeffs, p.1 < P.l.length)
+    (hpart : Partition P.mapping labels) (h : makePeriodic P labels = .ok Q) :
+    (∀ j, finalLead P labels (finalLead P labels j) = finalLead P labels j) ∧
+    (∀ j, j < P.n → finalLead P labels j < P.n) ∧
+    Q.l = (mergeProblem P (finalLead P labels) (mergeAll P labels).l (mergeAll P labels).u).l ∧
+    Q.u = (mergeProblem P (finalLead P labels) (mergeAll P labels).l (mergeAll P labels).u).u ∧
+    Q.mapping = (mergeProblem P (finalLead P labels) (mergeAll P labels).l (mergeAll P labels).u).mapping ∧
+    Q.name = P.name ∧ Q.nodes = P.nodes ∧
+    (∀ z, costAt Q.c 0 z
+      = costAt (mergeProblem P (finalLead P labels) (mergeAll P labels).l (mergeAll P labels).u).c 0 z) ∧
+    Q.rows.length = (mergeProblem P (finalLead P labels) (mergeAll P labels).l (mergeAll P labels).u).rows.length ∧
+    ∀ (i : Nat) (r r' : Row), Q.rows[i]? = some r →
+      (mergeProblem P (finalLead P labels) (mergeAll P labels).l (mergeAll P labels).u).rows[i]? = some r' →
+      (∀ z, r.eval z = r'.eval z) ∧ r.rhs = r'.rhs ∧ r.kind = r'.kind := by
+  obtain ⟨herr, hvars, M', hrel, hQ⟩ := makePeriodic_ok P labels Q h
+  have inv := mergeAll_loopInv P labels hlen hcols hpart herr
+  have hlead : finalLead P labels = leadFn (mergeAll P labels) := rfl
+  have hn : P.n = P.l.length := hlen
+  have hkeep : keepVars P.l.length (mergeAll P labels).out = keepOf (leadFn (mergeAll P labels)) P.l.length :=
+    keepVars_eq _ _ inv.out_iff
+  rw [hkeep] at hrel hQ
+  have hn' : P.c.length = P.l.length := hlen
+  have hidem := inv.idem
+  have hclosed := inv.closed
+  have hM' := relabelRows_ok _ P.mapping (fun m => leadFn (mergeAll P labels) m.var) M'
+    (fun m hm => (mem_keepOf _ _ _).mpr ⟨hclosed _ (hvars m hm), hidem _⟩) (by rw [← inv.newIdx]; exact hrel)
+  subst hQ
+  rw [hlead]
+  refine ⟨hidem, by rw [hn]; exact hclosed, ?_, ?_, ?_, rfl, rfl, ?_, ?_, ?_⟩
+  · show _ = compact (keepOf _ P.c.length) _
+    rw [hn']; rfl
+  · show _ = compact (keepOf _ P.c.length) _
+    rw [hn']; rfl
+  · have hG : (mergeProblem P (leadFn (mergeAll P labels)) (mergeAll P labels).l (mergeAll P labels).u).mapping
+        = P.mapping.map fun m => { m with var := sigmaOf (leadFn (mergeAll P labels)) P.c.length m.var } := rfl
+    rw [hG, hn']; exact hM'
+  · intro z
+    show costAt (compact (keepOf (leadFn (mergeAll P labels)) P.l.length) (mergeAll P labels).c) 0 z
+      = costAt (compact (keepOf _ P.c.length) (mergedCost _ P.c)) 0 z
+    rw [costAt_compact_mask _ _ _ inv.len_c, inv.cost,
+      costAt_merge (leadFn (mergeAll P labels)) P.c hidem (by rw [hn']; exact hclosed) z, hn']
+    rfl
+  · show ((mergeAll P labels).rows.map _).length = (P.rows.map _).length
+    rw [List.length_map, List.length_map, inv.rows_len]
+  · intro i r r' hr hr'
+    have hr' : (P.rows.map (Row.rename (sigmaOf (leadFn (mergeAll P labels)) P.c.length)))[i]? = some r' := hr'
+    have hr : ((mergeAll P labels).rows.map (compactRow (keepOf (leadFn (mergeAll P labels)) P.l.length)))[i]? = some r := hr
+    rw [List.getElem?_map] at hr hr'
+    cases hri : (mergeAll P labels).rows[i]? with
+    | none => rw [hri] at hr; simp at hr
+    | some r1 =>
+      cases hr0 : P.rows[i]? with
+      | none => rw [hr0] at hr'; simp at hr'
+      | some r0 =>
+        rw [hri] at hr; rw [hr0] at hr'
+        simp only [Option.map_some, Option.some.injEq] at hr hr'
+        subst hr; subst hr'
+        obtain ⟨hev, hrhs, hkind⟩ := inv.rows i r0 r1 hr0 hri
+        refine ⟨fun z => ?_, hrhs, hkind⟩
+        rw [eval_compactRow, mask_keep, hev, eval_rename, hn']
+        rfl
+
+
+/-! ### a sufficient condition for the partition hypothesis, and transfer of row satisfaction -/
+
+theorem mem_grp (M : List MapRow) (labels : List (Nat × Nat × Nat)) (k : GroupKey) (v : Nat) :
+    v ∈ grp M labels k ↔ ∃ m, m ∈ M ∧ m.var = v ∧ inGroup labels k m = true := by
+  unfold grp
+  rw [List.mem_eraseDups, List.mem_map]
+  constructor
+  · rintro ⟨m, hm, rfl⟩
+    exact ⟨m, (List.mem_filter.mp hm).1, rfl, (List.mem_filter.mp hm).2⟩
+  · rintro ⟨m, hm, rfl, hg⟩
+    exact ⟨m, List.mem_filter.mpr ⟨hm, hg⟩, rfl⟩
+
+/-- a row lies in exactly one group: the one of its own data -/
+theorem inGroup_key (labels : List (Nat × Nat × Nat)) (k : GroupKey) (m : MapRow) (h : inGroup labels k m = true) :
+    k = keyOf labels m := by
+  unfold keyOf
+  simp only [inGroup, baseMask, Bool.and_eq_true, beq_iff_eq] at h
+  obtain ⟨⟨⟨⟨⟨ha, hn⟩, hv⟩, hk⟩, hd⟩, hs⟩ := h
+  obtain ⟨n1, hn1, hn2⟩ := nanEq_true _ _ hn
+  obtain ⟨d1, hd1, hd2⟩ := nanEq_true _ _ hd
+  obtain ⟨s1, hs1, hs2⟩ := nanEq_true _ _ hs
+  cases k
+  simp_all
+
+/-- the executable check implies the partition hypothesis -/
+theorem partition_of_check (M : List MapRow) (labels : List (Nat × Nat × Nat))
+    (h : partitionCheck M labels = true) : Partition M labels := by
+  intro k1 k2 v w hv1 hv2 hw1
+  obtain ⟨m1, hm1, _, hg1⟩ := (mem_grp M labels k1 v).mp hv1
+  obtain ⟨m2, hm2, _, hg2⟩ := (mem_grp M labels k2 v).mp hv2
+  have e1 : k1 = keyOf labels m1 := inGroup_key labels k1 m1 hg1
+  have e2 : k2 = keyOf labels m2 := inGroup_key labels k2 m2 hg2
+  unfold partitionCheck at h
+  have h12 := List.all_eq_true.mp (List.all_eq_true.mp h m1 hm1) m2 hm2
+  rw [← e1, ← e2] at h12
+  simp only [Bool.or_eq_true, Bool.not_eq_true', List.any_eq_false, List.all_eq_true, List.contains_iff_mem] at h12
+  rcases h12 with h0 | h1
+  · exact absurd hv2 (by simpa using h0 v hv1)
+  · exact h1 w hw1
+
+/-- when every variable has a single mapping row, the groups form a partition -/
+theorem partition_of_single_rows (M : List MapRow) (labels : List (Nat × Nat × Nat))
+    (hM : ∀ m1 ∈ M, ∀ m2 ∈ M, m1.var = m2.var → m1 = m2) : Partition M labels := by
+  intro k1 k2 v w hv1 hv2 hw1
+  obtain ⟨m1, hm1, hmv1, hg1⟩ := (mem_grp M labels k1 v).mp hv1
+  obtain ⟨m2, hm2, hmv2, hg2⟩ := (mem_grp M labels k2 v).mp hv2
+  have e := hM m1 hm1 m2 hm2 (hmv1.trans hmv2.symm)
+  subst e
+  have : k1 = k2 := (inGroup_key labels k1 m1 hg1).trans (inGroup_key labels k2 m1 hg2).symm
+  subst this; exact hw1
+
+theorem sat_of_rel (r r' : Row) (z : Vec) (he : r.eval z = r'.eval z) (hr : r.rhs = r'.rhs) (hk : r.kind = r'.kind) :
+    r.Sat z ↔ r'.Sat z := by
+  unfold Row.Sat; rw [hk, hr, he]
+
+theorem rows_sat_of_rel (L1 L2 : List Row) (hlen : L1.length = L2.length)
+    (hrel : ∀ (i : Nat) (r r' : Row), L1[i]? = some r → L2[i]? = some r' →
+      (∀ z, r.eval z = r'.eval z) ∧ r.rhs = r'.rhs ∧ r.kind = r'.kind) (z : Vec) :
+    (∀ r ∈ L1, r.Sat z) ↔ ∀ r' ∈ L2, r'.Sat z := by
+  constructor
+  · intro h r' hr'
+    obtain ⟨i, hi, rfl⟩ := List.mem_iff_getElem.mp hr'
+    have hi1 : i < L1.length := by omega
+    obtain ⟨he, hr, hk⟩ := hrel i L1[i] L2[i] (List.getElem?_eq_getElem hi1) (List.getElem?_eq_getElem hi)
+    exact (sat_of_rel _ _ z (he z) hr hk).mp (h _ (List.getElem_mem hi1))
+  · intro h r hr
+    obtain ⟨i, hi, rfl⟩ := List.mem_iff_getElem.mp hr
+    have hi2 : i < L2.length := by omega
+    obtain ⟨he, hr, hk⟩ := hrel i L1[i] L2[i] (List.getElem?_eq_getElem hi) (List.getElem?_eq_getElem hi2)
+    exact (sat_of_rel _ _ z (he z) hr hk).mpr (h _ (List.getElem_mem hi2))
+
 end EAO.Merge
